@@ -841,3 +841,92 @@ Section Main2.
     - intros v Hv vs Hvs. now apply case_vcons2.
   Qed.
 End Main2.
+
+(* ------------------------------------------------------------------ root and default fuel *)
+Lemma cost_bound2 :
+  (forall v, cv2 v + 1 <= 2 * vlen v) /\
+  (forall f, 1 + cf2 f <= 2 * flen f) /\
+  (forall fs, cfs2 fs <= 2 * fslen false fs + 1) /\
+  (forall vs, cvs2 vs <= 2 * vslen vs + 1).
+Proof.
+  apply doc_mutind.
+  - intros k s. unfold vlen. cbn. lia.
+  - intros fs Hfs tl Htl. rewrite vlen_object2. cbn [cv2]. destruct tl; [cbn [cvs2]|]; lia.
+  - intros items Hvs. rewrite vlen_array. cbn [cv2]. lia.
+  - intros items _ kvs _. rewrite vlen_arraykv. cbn [cv2]. lia.
+  - intros name v Hv. rewrite vlen_header. cbn [cv2]. lia.
+  - intros k key op v Hv. rewrite flen_field. cbn [cf2]. lia.
+  - intros name u s. unfold flen. cbn. lia.
+  - intros name u fs Hfs. rewrite flen_paramo, vlen_object2. cbn [cf2]. lia.
+  - unfold fslen. cbn. lia.
+  - intros f Hf fs Hfs. rewrite fslen_cons2. cbn [cfs2]. lia.
+  - unfold vslen. cbn. lia.
+  - intros v Hv vs Hvs. rewrite vslen_cons. cbn [cvs2]. lia.
+Qed.
+
+Theorem tape_root_spec2 tp decode pf F sh d fuel :
+  ext_fields d = true -> cfs2 d + shape_size sh <= fuel ->
+  spec_value2 tp decode pf F sh d <> Err EC_UNFIT ->
+  de_root decode pf F (flatten d) fuel sh 0 (length (flatten d)) = spec_value2 tp decode pf F sh d.
+Proof.
+  intros He Hf Hne.
+  pose proof (proj1 (proj2 (proj2 (walk_all2 tp decode pf F (flatten d)))) d He 0 (length (flatten d))) as H.
+  assert (Hrem : rem_empty (flatten d) (length (flatten d))) by (left; apply nth_error_None; lia).
+  specialize (H (at_root _)).
+  assert (Hl0 : 0 + fslen false d <= length (flatten d)) by (change (length (flatten d)) with (fslen false d); lia).
+  specialize (H Hl0).
+  assert (HK : forall m a fuel', 0 + wm_size m <= fuel' -> Ok a <> Err EC_UNFIT ->
+            twalk decode pf F (flatten d) fuel' m a (0 + fslen false d) (length (flatten d)) = Ok a).
+  { intros m a fuel' Hf' _. destruct fuel' as [|f']; [pose proof (wm_size_pos m); lia|].
+    cbn [Nat.add]. change (fslen false d) with (length (flatten d)). apply twalk_end. exact Hrem. }
+  unfold spec_value2, de_root in *.
+  destruct sh; try (now destruct Hne); cbn [thint_of wmode_of wmode_core] in *.
+  - rewrite (H (WMap sh) (fun a => Ok a) 0 eq_refl (HK (WMap sh)) (acc0 (WMap sh)) fuel).
+    + rewrite obind_ret. reflexivity.
+    + cbn [wm_size shape_size] in *. lia.
+    + rewrite obind_ret. intros E. rewrite E in Hne. now apply Hne.
+  - rewrite (H (WStruct token fields) (fun a => Ok a) 0 eq_refl (HK (WStruct token fields)) (acc0 (WStruct token fields)) fuel).
+    + rewrite obind_ret. reflexivity.
+    + cbn [wm_size] in *. lia.
+    + rewrite obind_ret. intros E. rewrite E in Hne. now apply Hne.
+Qed.
+
+Theorem tape_path_spec2 tp decode pf F sh d :
+  ext_fields d = true -> fits2 tp decode pf F sh d ->
+  deser_tape decode pf F sh (flatten d) = spec_value2 tp decode pf F sh d.
+Proof.
+  intros He Hfit. unfold deser_tape. apply tape_root_spec2; auto.
+  pose proof (proj1 (proj2 (proj2 cost_bound2)) d) as Hb.
+  unfold tape_fuel. change (length (flatten d)) with (fslen false d). lia.
+Qed.
+
+(* well-formed documents are in the grammar *)
+Lemma wf_ext_all :
+  (forall v, wf_value v = true -> ext_value v = true) /\
+  (forall f, wf_field f = true -> ext_field f = true) /\
+  (forall fs, wf_fields fs = true -> ext_fields fs = true) /\
+  (forall vs, (wf_items vs = true -> ext_items vs = true) /\ (wf_tail vs = true -> ext_items vs = true)).
+Proof.
+  apply doc_mutind.
+  - reflexivity.
+  - intros fs Hfs tl [_ Htl] H. cbn [wf_value ext_value] in *. andb_split. rewrite Hfs, Htl by assumption. reflexivity.
+  - intros items [Hi _] H. cbn [wf_value ext_value] in *. andb_split. now apply Hi.
+  - reflexivity.
+  - intros name v Hv H. cbn [wf_value ext_value] in *. andb_split. rewrite Hv by assumption.
+    match goal with H : is_container v = true |- _ => rewrite H end. reflexivity.
+  - intros k key op v Hv H. cbn [wf_field ext_field] in *. andb_split. now apply Hv.
+  - reflexivity.
+  - intros name u fs Hfs H. cbn [wf_field ext_field] in *. andb_split. now apply Hfs.
+  - reflexivity.
+  - intros f Hf fs Hfs H. cbn [wf_fields ext_fields] in *. andb_split. rewrite Hf, Hfs by assumption. reflexivity.
+  - split; reflexivity.
+  - intros v Hv vs [Hi Ht]. split; intros H.
+    + cbn [wf_items ext_items] in *. andb_split. rewrite Hv, Hi by assumption.
+      match goal with H : negb (is_header v) = true |- _ => rewrite H end. reflexivity.
+    + cbn [wf_tail ext_items] in *. andb_split. rewrite Hv, Ht by assumption.
+      destruct v; try discriminate. reflexivity.
+Qed.
+
+Lemma wf_ext d : wf_doc d -> ext_fields d = true.
+Proof. apply (proj1 (proj2 (proj2 wf_ext_all))). Qed.
+
